@@ -39,6 +39,21 @@ func Decide(t fataler, s *graph.Scenario, obsOrders []int, tag string) {
 			in.Extra = append(in.Extra, &graph.OrderedObsPP{ObsPP: base})
 		}
 	}
+	// some single-valued points already hold a (foreign, unregistered) value when the start begins:
+	// the container must still resolve, create and initialise their real targets first
+	prefilled := 0
+	if strings.HasSuffix(tag, "+prefill") {
+		for i, c := range in.Comps {
+			v := reflect.ValueOf(c).Elem()
+			for _, fn := range []string{"Nx", "G", "BN"} {
+				f := v.FieldByName(fn)
+				if f.IsValid() && f.CanSet() && (i+len(fn))%2 == 0 {
+					f.Set(reflect.ValueOf(&zoo.W{TargetID: -7, When: "prefilled"}))
+					prefilled++
+				}
+			}
+		}
+	}
 	in.Run()
 	desc := fmt.Sprintf("%s %s obs=%v", tag, s.Shape(), obsOrders)
 	if in.Out.Panic != nil {
@@ -49,6 +64,25 @@ func Decide(t fataler, s *graph.Scenario, obsOrders []int, tag string) {
 		return
 	}
 	g := in.G
+	if prefilled > 0 {
+		// every populated point holds an admissible registered component (no pre-filled value survives where a target exists)
+		must, _ := g.Created()
+		for _, c := range g.Pop {
+			if !must[c] {
+				continue // a lazy component nobody needed is never populated
+			}
+			for _, p := range g.Points[c] {
+				if len(p.Cands) == 0 {
+					continue
+				}
+				for _, sx := range graph.Observe(g, p) {
+					if sx.Comp == nil {
+						t.Fatalf("C05: %v still holds the pre-filled value %v although %v are admissible: the point was not populated\n%s", p, sx, p.Cands, desc)
+					}
+				}
+			}
+		}
+	}
 	ev := in.Log.Snapshot()
 	n := len(in.Comps)
 	k := len(obsOrders)
@@ -270,7 +304,11 @@ func TestLifecycle(t *testing.T) {
 	kit.Rec.Rule(rule)
 	rapid.Check(t, func(t *rapid.T) {
 		s := graph.Gen(t, graph.GenOpts{MinNodes: 2, MaxNodes: 6, Variants: "NNLLPE", Aliases: true})
-		Decide(t, s, genObs(t), "rich")
+		tag := "rich"
+		if rapid.IntRange(0, 3).Draw(t, "prefill") == 0 {
+			tag += "+prefill"
+		}
+		Decide(t, s, genObs(t), tag)
 	})
 }
 
